@@ -1,0 +1,77 @@
+#pragma once
+
+//Observation hooks for runtime verification.
+//Everything in this file is compiled only with -DDSPLIB_VERIF; without the define the file is empty
+//and the macros below expand to nothing.
+
+#ifdef DSPLIB_VERIF
+
+#include <atomic>
+#include <cstdint>
+#include <vector>
+
+#include <sched.h>
+
+namespace dsplib {
+namespace verif {
+
+//------------------------------------------------------------------------------------------------
+//plan-cache observer (read-only)
+struct CacheEvent
+{
+    int cache;   ///< 0 - complex plan cache, 1 - real plan cache
+    int n;       ///< requested transform length
+    bool hit;    ///< true: served by get(), false: built and stored by put()
+};
+
+//lengths held by the calling thread's cache, most recently used first
+std::vector<int> fft_cache_keys();
+std::vector<int> rfft_cache_keys();
+
+//configured capacity (DSPLIB_FFT_CACHE_SIZE)
+int fft_cache_capacity();
+
+//sequence of cache get/put events of the calling thread (append only, the reader may clear it)
+std::vector<CacheEvent>& cache_trace();
+
+//------------------------------------------------------------------------------------------------
+//logical step counter (trial divisions / loop iterations of the integer helpers)
+struct StepState
+{
+    uint64_t steps{0};
+    uint64_t budget{0};                       ///< 0 - unlimited
+    void (*on_budget)(uint64_t){nullptr};     ///< called once when steps exceeds budget
+};
+
+StepState& step_state();
+
+inline void step() {
+    auto& s = step_state();
+    ++s.steps;
+    if ((s.budget != 0) && (s.steps == s.budget + 1) && (s.on_budget != nullptr)) {
+        s.on_budget(s.steps);
+    }
+}
+
+//------------------------------------------------------------------------------------------------
+//yield point between the phases of a transform (widens existing preemption windows only)
+std::atomic<bool>& yield_enabled();
+
+inline void yield_point() {
+    if (yield_enabled().load(std::memory_order_relaxed)) {
+        sched_yield();
+    }
+}
+
+}   // namespace verif
+}   // namespace dsplib
+
+#define DSPLIB_VERIF_STEP() ::dsplib::verif::step()
+#define DSPLIB_VERIF_YIELD() ::dsplib::verif::yield_point()
+
+#else
+
+#define DSPLIB_VERIF_STEP()
+#define DSPLIB_VERIF_YIELD()
+
+#endif
